@@ -2,7 +2,7 @@
 pub struct ItemV { pub keyspace_id: u64, pub key: Seq<u8>, pub value: Seq<u8>, pub value_type: ValueType }
 pub struct BatchV { pub seqno: u64, pub items: Seq<ItemV>, pub cleared: Seq<u64> }
 #[derive(PartialEq, Eq)]
-pub enum ApplyKind { Insert, Remove, RemoveWeak, Clear }
+pub enum ApplyKind { Insert, Remove, RemoveWeak, Clear, ClearActive }
 pub struct ApplyG { pub kind: ApplyKind, pub key: Seq<u8>, pub value: Seq<u8>, pub seqno: u64 }
 pub struct TreeG {
     pub applied: Seq<ApplyG>,           // memtable operations replayed so far, in order
